@@ -262,6 +262,14 @@ impl MessageID {
 
 // ----------------------------------------------------------------------------//
 
+// Verification hook: numeric value of an action id.
+#[cfg(btdht_verif)]
+impl ActionID {
+    pub(crate) fn verif_value(&self) -> u64 {
+        self.action_id
+    }
+}
+
 #[cfg(test)]
 mod tests {
     use std::collections::HashSet;
